@@ -215,6 +215,16 @@ theorem C12_targets_only (g : G) (hnd : g.nodes.Nodup) (ht : TopoL g.preds g.nod
     x ∈ selectNodes g none none (some T) ↔ x ∈ g.nodes ∧ (x ∈ T ∨ ∃ t ∈ T, Reach g x t) :=
   GM.selectNodes_targets g hnd ht T x
 
+/-- C12, empty lists: an empty list is a selection of NOTHING, not "no restriction" — `root_nodes=[]` and `target_nodes=[]`
+    select no node (and a target next to an empty root list is refused like any target outside the selection);
+    `exclude_nodes=[]` excludes nothing. -/
+theorem C12_empty_lists (g : G) (R X T : Option (List GM.Node)) :
+    selectNodes g (some []) X T = [] ∧ selectNodes g R X (some []) = [] ∧
+    selectNodes g R (some []) T = selectNodes g R none T ∧
+    (∀ t T', selectChecked g (some []) none (some (t :: T')) = .error .targetMissing) :=
+  ⟨GM.selectNodes_empty_roots g X T, GM.selectNodes_empty_targets g R X, GM.selectNodes_empty_exclusions g R T,
+   fun t T' => GM.selectChecked_empty_roots_target g none t T' trivial⟩
+
 theorem C11_setup_selection (g : G) (hnd : g.nodes.Nodup) (ht : TopoL g.preds g.nodes) (isSetup : GM.Node → Bool)
     (T : List GM.Node) (x : GM.Node) :
     x ∈ (selectNodes g none none (some T)).filter isSetup ↔
@@ -314,6 +324,15 @@ example : GM.allocAll [] ["f", "g", "f", "f"] = [("f", 0), ("g", 0), ("f", 1), (
 theorem C13_flag_off_no_debug (g : G) (isDebug : GM.Node → Bool) (sel leaves : List GM.Node) (x : GM.Node)
     (hx : x ∈ extendDebug g isDebug sel leaves false) : isDebug x = false :=
   GM.C13_flag_off_no_debug g isDebug sel leaves x hx
+
+/-- C13 (flag on): a whole-DAG call — selection = every node — runs EVERY debug node, also one without any input; and in a
+    sub-graph run a debug node whose inputs are all leaves of the selection is pulled in. -/
+theorem C13_flag_on_runs_debug_nodes (g : G) (isDebug : GM.Node → Bool) (sel leaves : List GM.Node) :
+    (∀ x ∈ sel, x ∈ extendDebug g isDebug sel leaves true) ∧
+    (∀ m ∈ g.nodes, isDebug m = true → (g.predsIn m).isEmpty = false → (∀ p ∈ g.predsIn m, p ∈ leaves) →
+        m ∈ extendDebug g isDebug sel leaves true) :=
+  ⟨fun x hx => GM.C13_flag_on_keeps_selection g isDebug sel leaves x hx,
+   fun m hm hd hne hp => GM.C13_debug_below_leaves_is_pulled g isDebug sel leaves m hm hd hne hp⟩
 
 /-- C13 (flag on): whatever is pulled in besides the selection is a debug node all of whose inputs are in the run. -/
 theorem C13_pulled_debug_has_inputs (g : G) (isDebug : GM.Node → Bool) (sel leaves : List GM.Node)
